@@ -67,6 +67,18 @@ func QueueCheck(w *engine.World) {
 		case c > 1:
 			w.Violate("C13", "queue/farm/duplicate-entry", "after height %d pool %s has %d entries in the active-pool queue", h, p.Id, c)
 		}
+		if p.EndHeight <= h && c == 0 {
+			// "processed exactly at its due height": ending a pool releases the last rewards and
+			// hands the rest of every budget back; a pool that is past its end height and off the
+			// queue with budget still recorded was taken off the queue without being ended
+			for _, r := range k.GetRewardRules(ctx, p.Id) {
+				if r.RemainingReward.IsPositive() {
+					w.Violate("C13", "queue/farm/ended-but-not-processed", "after height %d pool %s (end height %d) is off the active-pool queue but still records a remaining reward of %s%s (last distribution at height %d): its end was not carried out",
+						h, p.Id, p.EndHeight, r.RemainingReward, r.Reward, p.LastHeightDistrRewards)
+					break
+				}
+			}
+		}
 	})
 	w.Hit("C13.farm_queue_checks")
 	if n > 0 {
